@@ -85,6 +85,10 @@ type psMsg struct {
 	SigName   int
 	SigKey    int
 	N         int // badstate n / garbage n / rand n
+	// Neutral: the key is the neutral element of the curve and the signature the trivial one (R = neutral, S = 0), which
+	// crypto/ed25519 accepts for EVERY message — a "signed" key-exchange anybody can make without knowing the exchange's
+	// secret. Used only where the exchange has not passed the proof (the model refuses those before looking inside).
+	Neutral bool
 }
 
 func b01(b bool) string {
@@ -332,6 +336,10 @@ func (e *psEnv) concretise(conn int, m psMsg) []byte {
 					sig = genuineSig(e.ident(m.SigKey).Pub)
 					sig[e.r.Intn(64)] ^= 1 << uint(e.r.Intn(8))
 				}
+			}
+			if m.Neutral {
+				pk = append([]byte{1}, make([]byte, 31)...)
+				sig = append(append([]byte{1}, make([]byte, 31)...), make([]byte, 32)...)
 			}
 			items := []tlvOp{{tID, []byte(name)}}
 			if len(pk) > 0 {
@@ -608,7 +616,16 @@ func psCorpus() [][]psStep {
 	wrong.PCodeOk = false
 	pubA := psMsg{Kind: "m3", AGood: false, AN: 2, ProofKind: "public"}
 	pubA0 := psMsg{Kind: "m3", AGood: false, AN: 1, ProofKind: "public"}
+	zeroM5n, nilM5n := zeroM5, nilM5
+	zeroM5n.Neutral, nilM5n.Neutral = true, true
 	return [][]psStep{
+		// a key-exchange anybody can make (zero / empty-secret key, neutral-element key with its trivial signature) after a refused proof
+		{{0, psMsg{Kind: "m1"}}, {0, wrong}, {0, zeroM5n}},
+		{{0, psMsg{Kind: "m1"}}, {0, wrong}, {0, nilM5n}},
+		{{0, psMsg{Kind: "m1"}}, {0, badA}, {0, zeroM5n}},
+		{{0, psMsg{Kind: "m1"}}, {0, pubA}, {0, nilM5n}},
+		{{0, psMsg{Kind: "m1"}}, {0, zeroM5n}},
+		{{0, zeroM5n}},
 		{{0, psMsg{Kind: "m1"}}, {0, pubA}, {0, nilM5}},
 		{{0, psMsg{Kind: "m1"}}, {0, pubA0}, {0, nilM5}},
 		{{0, psMsg{Kind: "m1"}}, {0, psMsg{Kind: "m3", AGood: false, AN: 0, ProofKind: "empty"}}, {0, zeroM5}},
